@@ -74,7 +74,21 @@ pub proof fn lemma_opt_items_push(cs: Seq<OPTCode>, c: OPTCode)
         &&& tlv16(data, p + 10, opt_items(v.opt_codes@), data.len() as int)
         &&& p2 == data.len()
     }
-""", external_trait_fns=('write_compressed_to', 'len'))
+""", verified_inherent=('extract_rcode_from_ttl', 'encode_ttl'), external_trait_fns=('write_compressed_to', 'len'))
+    OPT_IMPL = "impl<'a> OPT<'a> {"
+    c.contract(rel, OPT_IMPL, 'encode_ttl', """
+        ensures r == crate::dns::header::opt_ttl(header.response_code, self.version), // @C09:ttl-layout
+""", pre_body="\n        proof { lemma_tz_consts(); }\n")
+    c.contract(rel, OPT_IMPL, 'extract_rcode_from_ttl', """
+        ensures crate::dns::header::rcode_code(header.response_code) < 16 ==>
+            r == rcode_of_code((((ttl >> 24u32) as u16) << 4u16) | crate::dns::header::rcode_code(header.response_code)), // @C09:rcode-recombined
+""", pre_body="\n        proof { lemma_tz_consts(); }\n")
+    c.ghost(rel, OPT_IMPL, 'extract_rcode_from_ttl', "RCODE::from(rcode as u16)", """
+        proof {
+            let hc = crate::dns::header::rcode_code(header.response_code);
+            assert(hc < 16 ==> ((((ttl & 0xFF00_0000u32) >> 24u32) << 4u32) | (hc as u32)) as u16 == (((ttl >> 24u32) as u16) << 4u16) | hc) by(bit_vector);
+        }
+""", where='before')
     c.contract(rel, OPT_WF, 'parse', "", pre_body="""
         let ghost p0 = *position as int;
         proof { lemma_tz_consts(); }
